@@ -391,6 +391,25 @@ func genHistory(g *sgen, c hcfg) []sop {
 			sop{kind: opFind, filter: types.NewMap(str(key), v, str(other), in)})
 		probe()
 	}
+	if c.watchers && r.Intn(3) == 0 {
+		// scenario: several watchers are open, one that was opened EARLIER is closed while later ones stay open, and
+		// the next mutations match all of them: the remaining watchers must see every one of those mutations
+		first := nwatch
+		k := 2 + r.Intn(2)
+		for i := 0; i < k; i++ {
+			var f types.Map
+			if r.Intn(4) == 0 {
+				f = types.NewMap(str("a"), types.NewMap(str("$exists"), types.NewBoolean(true)))
+			}
+			ops = append(ops, sop{kind: opWatch, filter: f})
+			nwatch++
+		}
+		ops = append(ops, sop{kind: opCloseWatch, widx: first + r.Intn(k-1)})
+		for i := 0; i < 2+r.Intn(2); i++ {
+			ops = append(ops, sop{kind: opInsert, docs: []types.Map{types.NewMap(str("id"), types.NewInt(60+i), str("a"), types.NewInt(i))}})
+		}
+		ops = append(ops, sop{kind: opDrain, widx: nwatch - 1})
+	}
 	ops = append(ops, sop{kind: opFind})
 	for i := 0; i < nwatch; i++ {
 		ops = append(ops, sop{kind: opDrain, widx: i})
